@@ -39,6 +39,16 @@ class Rule:
     def shape(self):
         return (self.mnem, tuple((o.wrap, o.lit if o.kind == "lit" else "*", self.seps[k].strip() if k else "") for k, o in enumerate(self.opds)))
 
+    def shapes(self):
+        """every shape this rule's lines can have: a sub-rule operand is written `#expr` or `[expr]`, so it
+        also occupies the shapes of an expression operand wrapped that way"""
+        out = [()]
+        for k, o in enumerate(self.opds):
+            sep = self.seps[k].strip() if k else ""
+            wraps = [o.wrap, "#%s", "[%s]"] if o.kind == "sub" else [o.wrap]
+            out = [t + ((w, o.lit if o.kind == "lit" else "*", sep),) for t in out for w in wraps]
+        return [(self.mnem, t) for t in out]
+
     def pattern(self, case=lambda s: s):
         parts = []
         for k, o in enumerate(self.opds):
@@ -152,9 +162,9 @@ def gen_rules(rng, families=False, prodref=False, subs=False):
         if extra:
             r.opbits += extra
             r.opcode = rng.randrange(1 << r.opbits)
-        if r.shape() in shapes:
+        if any(x in shapes for x in r.shapes()):
             continue
-        shapes.add(r.shape())
+        shapes.update(r.shapes())
         rules.append(r)
         lits = [k for k, o in enumerate(r.opds) if o.kind == "lit"]
         if families and lits and rng.random() < 0.5:
@@ -173,8 +183,8 @@ def gen_rules(rng, families=False, prodref=False, subs=False):
             r2 = Rule(r.mnem, opds2, rng.randrange(1 << r.opbits), r.opbits, seps2)
             r2.opbits += (-r2.size()) % 8
             r2.opcode = rng.randrange(1 << r2.opbits)
-            if r2.shape() not in shapes:
-                shapes.add(r2.shape())
+            if not any(x in shapes for x in r2.shapes()):
+                shapes.update(r2.shapes())
                 rules.append(r2)
         typed = [k for k, o in enumerate(r.opds) if o.kind == "typed" and o.xform is None]
         if prodref and typed and r.family is None and rng.random() < 0.3:
